@@ -139,7 +139,7 @@ func run(c *lib.Ctx) {
 	atomic.StoreInt32(&hookDelayOn, 1)
 	lb := lib.CaptureLog()
 	_ = lb
-	nh := c.Pick(3, 30)
+	nh := c.Pick(4, 32)
 	for h := 0; h < nh; h++ {
 		runHistory(c, h, c.Pick(12, 16), c.Pick(16, 24))
 		if c.Violations() > 10 {
@@ -178,13 +178,31 @@ func runHistory(c *lib.Ctx, hid, nReloads, W int) {
 	// for longer than the (shortened) grace period, on both listeners: the old
 	// servers' graceful stop then times out during each reload, which must not
 	// change the outcome of the reload.
-	stall := hid%3 == 1
+	stall := hid%4 == 1 || hid%4 == 3
 	if stall {
 		httpserver.GracefulTimeout = 300 * time.Millisecond
+		if hid%4 == 3 {
+			httpserver.GracefulTimeout = 0 // "-grace 0": no waiting at all for the old servers
+		}
 		defer func() { httpserver.GracefulTimeout = 5 * time.Second }()
 		c.Count("histories_with_stalled_connections", 1)
 	}
-	inst, err := lib.Start(h.valid(0), filepath.Join(h.dir, "Casketfile"))
+	// Every fourth history keeps the text handed to Restart constant: the
+	// Casketfile only imports a file, and it is that file which changes from
+	// reload to reload (as with `-conf "*.conf"` or an unchanged main file).
+	importStyle := hid%4 == 2
+	activeConf := filepath.Join(h.dir, "active.conf")
+	mkInput := func(text string) casket.Input {
+		if importStyle {
+			os.WriteFile(activeConf, []byte(text), 0o644)
+			return lib.Input("import "+activeConf+"\n", filepath.Join(h.dir, "Casketfile"))
+		}
+		return lib.Input(text, filepath.Join(h.dir, "Casketfile"))
+	}
+	if importStyle {
+		c.Count("histories_reloading_through_an_unchanged_importing_casketfile", 1)
+	}
+	inst, err := casket.Start(mkInput(h.valid(0)))
 	if err != nil {
 		c.Violation("harness/start", "initial start failed: "+err.Error(), h.valid(0))
 		return
@@ -272,16 +290,33 @@ func runHistory(c *lib.Ctx, hid, nReloads, W int) {
 					case <-stop:
 					case <-time.After(900 * time.Millisecond):
 					}
-					k.Raw().Write([]byte("Connection: close\r\n\r\n"))
-					k.Raw().SetReadDeadline(time.Now().Add(2 * time.Second))
-					buf := make([]byte, 4096)
-					for {
-						if _, err := k.Raw().Read(buf); err != nil {
-							break
+					// finish the request: it was in flight across whatever reloads happened
+					// meanwhile and must still get one complete, self-consistent answer
+					resp := k.Do("GET", []byte("Connection: close\r\n\r\n"))
+					k.Close()
+					select {
+					case <-stop:
+						// the history is being torn down: not judged
+						return
+					default:
+					}
+					c.Count("stalled_requests_judged", 1)
+					what := ""
+					switch {
+					case resp.Err != nil:
+						what = "no complete response: " + resp.Err.Error()
+					case resp.Status != 200:
+						what = fmt.Sprintf("status %d", resp.Status)
+					default:
+						m, err := strconv.Atoi(resp.Header.Get("X-Verif-Config"))
+						if err != nil || !bytes.Equal(resp.Body, bodyFor(m, 2)) {
+							what = fmt.Sprintf("body (%d bytes) is not the complete f3.bin of the configuration named by its marker %q", len(resp.Body), resp.Header.Get("X-Verif-Config"))
 						}
 					}
-					k.Close()
-					c.Count("stalled_requests_completed_or_cut", 1)
+					if what != "" {
+						c.Violation("C07/in-flight-request-cut-by-reload", fmt.Sprintf("a request that was in flight (half-sent header, completed %d ms later) while reloads happened got %s (site %s, grace period %v)", 900, what, st.name, httpserver.GracefulTimeout),
+							map[string]interface{}{"history": hid, "site": st.name, "grace": httpserver.GracefulTimeout.String()})
+					}
 				}
 			}()
 		}
@@ -306,7 +341,7 @@ func runHistory(c *lib.Ctx, hid, nReloads, W int) {
 		}
 		c.Journal("C07 h%d reload step %d kind %s", hid, step, rr.Kind)
 		rr.Call = now()
-		ni, err := inst.Restart(lib.Input(text, filepath.Join(h.dir, "Casketfile")))
+		ni, err := inst.Restart(mkInput(text))
 		rr.Ret = now()
 		if err == nil {
 			rr.OK = true
@@ -326,7 +361,7 @@ func runHistory(c *lib.Ctx, hid, nReloads, W int) {
 			next++
 		} else {
 			if rr.OK {
-				c.Violation("harness/invalid-config-loaded", "a configuration meant to fail was accepted: "+rr.Kind, text)
+				c.Violation("C07/failing-configuration-reported-as-loaded", "Restart returned success for a configuration that cannot load ("+rr.Kind+"; it does fail on the unchanged tree)", map[string]interface{}{"history": hid, "kind": rr.Kind, "config": text, "import_style": importStyle})
 				cur = next
 				next++
 			} else {
